@@ -93,7 +93,7 @@ def run_child(cases, hashseed):
     env = dict(os.environ)
     env["PYTHONHASHSEED"] = hashseed
     env["PYTHONWARNINGS"] = "ignore"
-    p = subprocess.run([common.PYTHON, "-m", "vf.c13child"], input=json.dumps(cases),
+    p = subprocess.run([common.PYTHON] + common.py_flags() + ["-m", "vf.c13child"], input=json.dumps(cases),
                        capture_output=True, text=True, cwd=common.VERIF_DIR, env=env,
                        timeout=300)
     if p.returncode != 0:
@@ -138,6 +138,7 @@ def two_threads(case):
     res = {}
     sched = {"seed": case.get("tt_seed", 0), "p": [0.05, 0.15, 0.3][case["r"] % 3],
              "d": [2, 4, 8, 20][len(names) % 4]}
+    init_worker()          # (idempotent; the shrinker evaluates in forks of the parent)
     det, errors = twothread.run_two(sched, lambda: res.__setitem__("a", outcome(sa, ua)),
                                     lambda: res.__setitem__("b", outcome(sb, ub)))
     if det.aborted:
